@@ -43,6 +43,15 @@ fn main() {
         "c10child" => c10::child(tier),
         "c10cmp" => c10::compare(tier),
         "c19" => c19::run(tier),
+        // debugging aid: load one project directory and print what the loader says
+        "parse" => {
+            let o = obs::parse_dir(std::path::Path::new(args.get(2).map(|s| s.as_str()).unwrap_or(".")));
+            match &o {
+                obs::Outcome::Ok(p) => println!("Ok {p:#?}"),
+                o => println!("{}", o.short()),
+            }
+            0
+        }
         _ => {
             eprintln!("usage: vparse <c01|...> [--tier quick|thorough]");
             2
